@@ -709,6 +709,9 @@ func c12Run(c *core.Ctx) {
 // runRaceBinary runs .build/mcrace <scenario>; "" = clean, "skip:..." = binary missing.
 func runRaceBinary(scenario string) string {
 	bin := filepath.Join(core.VerifDir, ".build", "mcrace")
+	if b := os.Getenv("VERIF_BIN_DIR"); b != "" {
+		bin = filepath.Join(b, "mcrace")
+	}
 	if _, err := os.Stat(bin); err != nil {
 		return "skip: " + bin + " not built"
 	}
